@@ -128,7 +128,7 @@ func sortedDevs(res *Resolved) []string {
 }
 
 func checkC02(c *Ctx) {
-	c.Rule = "seeded caches (1-4 directories, several files/devices per file, shadowing, conflicts; edits of every kind incl. device nodes resolved from harness-created host nodes) x initial OCI specs x 3-6 ordered selections of distinct resolvable devices injected one after the other into the SAME cache; oracle = the combined edit list built by the harness from the generator's data, applied with ContainerEdits.Apply to a copy, plus a marker scan (no edit of an unrequested device, shadowed definition or uninvolved file; spec-level markers of involved files exactly once); distinct_nontrivial = distinct (number of files involved, interleaving pattern of files in the request, spec-level edits present) with >=2 devices requested"
+	c.Rule = "seeded caches (1-4 directories, several files/devices per file, shadowing, conflicts; edits of every kind incl. device nodes resolved from harness-created host nodes) x initial OCI specs x 3-6 ordered selections of distinct resolvable devices injected one after the other into the SAME cache, with refused requests (resolvable devices mixed with an unknown one, nil OCI spec) and queries in between; oracle = the combined edit list built by the harness from the generator's data, applied with ContainerEdits.Apply to a copy, plus a marker scan (no edit of an unrequested device, shadowed definition or uninvolved file; spec-level markers of involved files exactly once); distinct_nontrivial = distinct (number of files involved, interleaving pattern of files in the request, spec-level edits present) with >=2 devices requested"
 	c.Assume("equality is relative to ContainerEdits.Apply (whose own semantics are C03's job)", "M-RESOLVE decides which file a device resolves to")
 	hosts, err := makeHostNodes(filepath.Join(c.Scratch, "hostdev"))
 	if err != nil {
@@ -236,6 +236,36 @@ func checkC02(c *Ctx) {
 				cs.Violation("reference-apply-failed", nil, fmt.Sprintf("applying the combined edit list fails: %v", err), wit())
 				return
 			}
+			// what the cache was asked before must not matter: now and then a refused
+			// request (resolvable devices mixed with an unknown one, or a nil OCI spec)
+			// or a few queries go first
+			if chance(r, 40) {
+				var other []string
+				for _, i := range r.Perm(len(devs))[:1+r.Intn(min(len(devs), 4))] {
+					other = append(other, devs[i])
+				}
+				kind := r.Intn(4)
+				if pv, st := guard(func() {
+					switch kind {
+					case 0, 1:
+						bad := append(append([]string{}, other...), "unknown.org/dev=none")
+						r.Shuffle(len(bad), func(i, j int) { bad[i], bad[j] = bad[j], bad[i] })
+						cache.InjectDevices(genOCI(r), bad...)
+						c.Count("refused_requests_before_an_injection", 1)
+					case 2:
+						cache.InjectDevices(nil, other...)
+						c.Count("nil_spec_requests_before_an_injection", 1)
+					default:
+						for _, q := range other {
+							cache.GetDevice(q)
+						}
+						cache.ListDevices()
+					}
+				}); pv != nil {
+					cs.Violation("panic", nil, fmt.Sprintf("a request before the injection panics: %v", pv), map[string]any{"w": wit(), "stack": st})
+					return
+				}
+			}
 			var unres []string
 			var ierr error
 			if pv, st := guard(func() { unres, ierr = cache.InjectDevices(got, req...) }); pv != nil {
@@ -299,6 +329,7 @@ func checkC02(c *Ctx) {
 	c.Floor("requests_with_2+_devices_of_one_file", 50)
 	c.Floor("injections_into_already_used_cache", 50)
 	c.Floor("injections_without_watcher", 50)
+	c.Floor("refused_requests_before_an_injection", 50)
 }
 
 var c04BadNames = []string{"", "nodev", "vendor.com/gpu", "vendor.com/gpu=", "=x", "vendor.com/gpu=dev0 ", " vendor.com/gpu=dev0", "vendor.com/gpu=dev9", "nope.io/net=dev0", "a/b=c", "vendor.com/gpu=dev0,vendor.com/gpu=dev1", "VENDOR.COM/gpu=dev0", "vendor.com/gpu=dev0\x00", "vendor.com//gpu=dev0", "é/ü=ö"}
@@ -331,6 +362,15 @@ func checkC04(c *Ctx) {
 		for round := 0; round < 4; round++ {
 			var req []string
 			n := 1 + r.Intn(6)
+			switch k := r.Intn(20); {
+			case k < 3: // long requests: the miss list has no length at which it may be cut or summarised
+				n = 7 + r.Intn(34)
+			case k == 3:
+				n = 60 + r.Intn(240)
+			}
+			if n > 10 {
+				c.Count("requests_with_more_than_10_names", 1)
+			}
 			for i := 0; i < n; i++ {
 				switch k := r.Intn(10); {
 				case k < 4 && len(devs) > 0:
@@ -375,7 +415,7 @@ func checkC04(c *Ctx) {
 				if spec.Process != nil || spec.Linux != nil || spec.Hooks != nil || len(spec.Mounts) > 0 {
 					c.Count("mixed_requests_on_populated_oci", 1)
 				}
-				c.Distinct(fmt.Sprintf("%s|%v%v%v%v", pattern, spec.Process != nil, spec.Linux != nil, spec.Hooks != nil, len(spec.Mounts) > 0))
+				c.Distinct(fmt.Sprintf("%s|%v%v%v%v", pattern[:min(len(pattern), 12)], spec.Process != nil, spec.Linux != nil, spec.Hooks != nil, len(spec.Mounts) > 0))
 			}
 			if ierr == nil {
 				cs.Violation("no-error", nil, fmt.Sprintf("InjectDevices(%q) returns no error although %q do not resolve", req, want), wit())
@@ -398,6 +438,9 @@ func checkC04(c *Ctx) {
 		req := []string{"vendor.com/gpu=dev0", "x"}
 		if len(devs) > 0 {
 			req = append(req, devs[0])
+		}
+		for i := r.Intn(3) * r.Intn(20); i > 0; i-- {
+			req = append(req, pickStr(r, append(append([]string{}, devs...), c04BadNames...)...))
 		}
 		var unres []string
 		var ierr error
@@ -458,6 +501,7 @@ func checkC04(c *Ctx) {
 	})
 	c.Floor("mixed_requests_on_populated_oci", 100)
 	c.Floor("nil_spec_requests", 100)
+	c.Floor("requests_with_more_than_10_names", 100)
 	c.Floor("flip_requests", 1000)
 }
 
